@@ -16,6 +16,6 @@ func TestFree(t *testing.T) {
 		ID: "C01", Name: "free", Rule: freerun.Rule,
 		Gen:     func(t *rapid.T) freerun.Case { return freerun.Gen(t, freerun.Profile{Inc: 4, Cycle: 1, Gauge: 1}) },
 		Run:     freerun.Run,
-		Retries: 5,
+		Retries: 30,
 	})
 }
